@@ -268,6 +268,9 @@ def r5_sibling_guards(rule, root=None):
         rule.bad("mix|singleton", "Interval::mix gives up (NaN interval) under %s; both operands must be tested for a single bit pattern (`lower().to_bits() != upper().to_bits()`): [-0.0, +0.0] is two inputs to the hash" % sorted(dis), A.where(fn, ifs[0]))
 
 
+from . import C11  # noqa: E402
+
+
 def run(ctx):
     r = ctx.rule("R1", "monotone interval ops take each result bound from the bound their monotonicity dictates", 16)
     ctx.guarded(r, r1_variance)
@@ -286,5 +289,9 @@ def run(ctx):
     ctx.guarded(r, AC.check_magic_constants, focus="interval")
     r = ctx.rule("R4", "Transformable for Interval is the homogeneous transform of its f32 and Grad siblings", 3)
     ctx.guarded(r, lambda rule: SC.r_transformable(rule, ("Interval",)))
+    # sin / cos pick their monotonicity case from the quadrant of each bound: the classification must be
+    # exact for every finite angle (C11 reads the same rule for the `unreachable!()` default)
+    r = ctx.rule("R1q", "the trig quadrant of a bound is reduced in f32 (floor, rem_euclid(4.0)) before it is narrowed", 1)
+    ctx.guarded(r, C11.r2b_unreachable_ranges)
     r = ctx.rule("R5", "paired guards agree: sin / cos early exits (whole period with >=), mix's single-bit-pattern tests", 4)
     ctx.guarded(r, r5_sibling_guards)
